@@ -15,7 +15,7 @@ from ..cfg import CFG, EXIT
 from ..core import Ctx
 from ..model import AnalysisError, FuncInfo, dotted, kwarg, norm, walk_no_nested
 from ..zones import ZUnsupported, box_contains, nonneg, pair_domain, range_bounds, to_lin
-from .common import assigned_value, conditions_at, enclosing, expand_locals, flat_nodes, flat_subscript, is_cmp, stores_to, subst_views, view_env
+from .common import assigned_value, conditions_at, enclosing, expand_locals, flat_nodes, flat_subscript, is_cmp, resolve_local, stores_to, subst_views, view_env
 
 CAND = "AbstractDissimilarity._get_all_valid_alignments"
 PAIRK = "AbstractDissimilarity._compute_alignment_disorders"
@@ -39,6 +39,75 @@ class K:
         if r is None:
             r = next(iter(self.rules.values()))
         self.ctx.undecided(r, self.f, node, f"{name}: {why}", key=name, construct=None if node is not None else name)
+
+
+ENTRIES = {"valid_alignments": ("_get_all_valid_alignments", "_build_arrays_continuum"),
+           "compute_disorder": ("_compute_alignment_disorders", "_build_arrays_alignment")}
+
+
+def check_entry(ctx: Ctx, rule: str, method: str):
+    """The kernels are reached through `dissimilarity.valid_alignments(continuum)` / `dissimilarity.compute_disorder(alignment)`: dynamic
+    dispatch over every dissimilarity class.  Each implementation the call can reach (CHA) must hand the kernel the arrays of its argument,
+    *its own* d_mat and *its own* delta_empty and return the kernel's result unchanged; an override that only defers to super() is that.
+    An override that answers with another dissimilarity object's method costs the candidates with that object's kernel and delta_empty
+    (recognised shape, wrong slot); any other shape is not decided."""
+    M = ctx.model
+    kern, builder = ENTRIES[method]
+    done = ctx.notes.setdefault("entries_checked", set())
+    if (rule, method) in done:
+        return
+    done.add((rule, method))
+    impls = M.dispatch("AbstractDissimilarity", method)
+    base = M.fn(f"AbstractDissimilarity.{method}", rule)
+    if base not in impls:
+        impls.insert(0, base)
+    for f in impls:
+        ctx.functions_analysed.add(f.qualname)
+        sn = f.self_name
+        rets = [r for r in walk_no_nested(f.node) if isinstance(r, ast.Return)]
+        calls = [c for c in walk_no_nested(f.node) if isinstance(c, ast.Call) and norm(c.func) in (f"{sn}.{kern}", f"AbstractDissimilarity.{kern}", f"{f.cls.name}.{kern}")]
+        if f is not base:
+            # an override: every return defers to super() with the same argument, or (wrong slot) answers with another object's method
+            arg = f.params[1] if len(f.params) > 1 else None
+            foreign = None
+            shape = bool(rets)
+            for r in rets:
+                v = resolve_local(f.node, r.value) if r.value is not None else None
+                if isinstance(v, ast.Call) and isinstance(v.func, ast.Attribute) and v.func.attr == method:
+                    recv = norm(v.func.value)
+                    if recv == "super()" and [norm(a) for a in v.args] == [arg] and not v.keywords:
+                        continue
+                    if recv not in ("super()", sn) and recv.startswith(f"{sn}."):
+                        foreign = foreign or (r, recv)
+                        continue
+                shape = False
+            if foreign is not None:
+                ctx.bad(rule, f, foreign[0], f"{f.qualname} answers with {foreign[1]}.{method}(...): the {'candidates' if method == 'valid_alignments' else 'alignment'} "
+                        f"are costed with {foreign[1]}'s kernel and delta_empty, not with this dissimilarity's d_mat / delta_empty", key=f"entry:{f.qualname}")
+                continue
+            if shape and not calls:
+                ctx.ok(rule, f, rets[0], f"{f.qualname} defers to super().{method}({arg}) on every path", key=f"entry:{f.qualname}")
+                continue
+        if len(calls) != 1:
+            ctx.undecided(rule, f, None, f"{f.qualname}: an implementation of {method} that neither calls {kern} exactly once nor defers to super() (not a verdict)",
+                          key=f"entry:{f.qualname}", construct=method)
+            continue
+        c = calls[0]
+        k = M.functions[f"AbstractDissimilarity.{kern}"]
+        bound = {p: a for p, a in zip(k.params, c.args)}
+        bound.update({kw.arg: kw.value for kw in c.keywords})
+        arr = resolve_local(f.node, bound.get(k.params[0]))
+        ok = isinstance(arr, ast.Call) and norm(arr.func) == f"{sn}.{builder}" and len(arr.args) == 1 and norm(arr.args[0]) == f.params[1] and \
+            norm(bound.get(k.params[1])) == f"{sn}.d_mat" and norm(bound.get(k.params[2])) == f"{sn}.delta_empty"
+        ctx.check(ok, rule, f, c, f"{kern}(arrays of the argument, self.d_mat, self.delta_empty) in parameter order",
+                  bad_detail=f"kernel arguments do not match its parameters (arrays, d_mat, delta_empty): {[norm(a) for a in c.args]}",
+                  key=f"roles:{kern}" if f is base else f"roles:{kern}:{f.qualname}")
+        okr = len(rets) == 1 and (rets[0].value is c or norm(resolve_local(f.node, rets[0].value)) == norm(c))
+        if okr or f is base:
+            ctx.check(okr, rule, f, rets[0] if rets else None, "the kernel's result is returned unchanged", key=f"ret:{kern}" if f is base else f"ret:{kern}:{f.qualname}")
+        else:
+            ctx.undecided(rule, f, rets[0] if rets else None, f"{f.qualname}: the override does not return the kernel's result unchanged on its single path (not a verdict)",
+                          key=f"ret:{kern}:{f.qualname}")
 
 
 def _single(f: FuncInfo, name: str) -> Optional[ast.AST]:
@@ -84,6 +153,7 @@ def c2n_ok(f: FuncInfo, e: ast.AST, n_name: str) -> bool:
 # =============================================================================================
 def check_pair_kernel(ctx: Ctx, rules: Dict[str, str]):
     f = ctx.fn(PAIRK, next(iter(rules.values())))
+    check_entry(ctx, rules.get("entry") or next(iter(rules.values())), "compute_disorder")
     k = K(ctx, rules, f)
     ps = f.params
     if len(ps) != 3:
@@ -577,6 +647,7 @@ def check_build_A(ctx: Ctx, rules: Dict[str, str]):
 # =============================================================================================
 def check_candidates(ctx: Ctx, rules: Dict[str, str]):
     f = ctx.fn(CAND, next(iter(rules.values())))
+    check_entry(ctx, rules.get("entry") or next(iter(rules.values())), "valid_alignments")
     k = K(ctx, rules, f)
     ps = f.params
     if len(ps) != 3:
